@@ -276,11 +276,22 @@ def run_case(ctx, case):
     if case.get('roundtrip'):
         t2d = R.t2data
         fn = os.path.join(ctx.tmp, 'c09.dat')
-        with ctx.guard(case, where='file-roundtrip') as g:
+        # where the mesh goes: in the data file, in a MESH file, or in the binary MESHA / MESHB pair of TOUGH2-MP (the
+        # pair numbers the blocks of each connection: only for grids whose blocks all have centres, which the
+        # binary writer needs)
+        mode = case.get('mesh_mode')
+        if mode is None:
+            mode = 'infile'
+        if mode == 'binary' and any(b.centre is None for b in grid.blocklist):
+            mode = 'MESH'
+        mf = {'infile': '', 'MESH': os.path.join(ctx.tmp, 'c09.MESH'),
+              'binary': [os.path.join(ctx.tmp, 'c09.MESHA'), os.path.join(ctx.tmp, 'c09.MESHB')]}[mode]
+        ctx.see('roundtrip_mesh_mode', mode)
+        with ctx.guard(case, where='file-roundtrip:' + mode) as g:
             dat = t2d.t2data()
             dat.grid = grid
-            dat.write(fn)
-            back = t2d.t2data(fn)
+            dat.write(fn, meshfilename=mf)
+            back = t2d.t2data(fn, meshfilename=mf)
         if g.raised is not None:
             return nrev_v
         ctx.count('file_roundtrips')
@@ -300,7 +311,7 @@ def run_compose(ctx, spec):
         if grid.num_blocks > 600:
             continue
         ops = []
-        case = {'geo': desc, 'ops': ops, 'roundtrip': ctx.rng.random() < 0.3}
+        case = {'geo': desc, 'ops': ops, 'roundtrip': ctx.rng.random() < 0.4, 'mesh_mode': ctx.rng.choice(['infile', 'MESH', 'binary'])}
         # generate ops against a scratch grid so that indices refer to the state they are applied in
         scratch = t2g.t2grid().fromgeo(geo)
         for _ in range(ctx.rng.randint(1, 4)):
